@@ -2,7 +2,7 @@
 import itertools
 
 ID = 'C06'
-RULE = ('one case = 2-4 real nodes over loopback RPC; for every operation kind (put, del) and every subset S of the other nodes standing for the replicas the level selected (sizes 0..n-1: None, One, Two, Three, '
+RULE = ('one case = 2-4 real nodes over loopback RPC; bulk writes (put_many/del_many shapes: 1-300 documents under one stamp through the real multi_put/multi_del) and, for every operation kind (put, del) and every subset S of the other nodes standing for the replicas the level selected (sizes 0..n-1: None, One, Two, Three, '
         'quorum-sized, All), every subset of S is made unable to acknowledge (its next storage mutation fails, or it has crashed and refuses connections while still selected), the write is issued through the real handle_consistency_distribution, and immediately afterwards '
         'Storage::get is called on the issuer and on every selected node. Checked: Ok => the document (or a newer record) is readable from the issuer and from EVERY selected node; otherwise the error is '
         'ConsistencyFailure{responses = number that acknowledged, required = |S|}, and the local write is in place. Also a prior newer write on a replica (will_apply = false => acknowledged without a storage call). '
@@ -18,7 +18,7 @@ SHRINK = False
 def augment(case, impl):
     out = []
     for l, o in zip(case, impl):
-        if l.split()[0] in ('put', 'del', 'mput', 'mdel', 'wput', 'wdel') and 'ts=' in o:
+        if l.split()[0] in ('put', 'del', 'mput', 'mdel', 'wput', 'wdel', 'wmput', 'wmdel') and 'ts=' in o:
             out.append(l + ' ts=' + o.split('ts=')[1].split()[0])
         else:
             out.append(l)
@@ -54,6 +54,27 @@ def generate(rng, tier):
                             for j in failing: lines.append('clearfail %d' % j); lines.append('reach %d' % j)
                             lines.append('sel %s fail %s' % (tg, ','.join(map(str, failing)) or '-'))
                             lines.append('end'); cases.append(lines); idx += 1
+    # bulk writes (put_many / del_many): batches of 1..300 documents under one stamp, through the real client's multi_put /
+    # multi_del to the replicas the level selected; sizes around 128/256 (chunk boundaries a client could introduce)
+    for _ in range(dict(quick=24, thorough=600, search=120)[tier]):
+        n = rng.range(2, 4)
+        others = list(range(1, n))
+        S = [j for j in others if rng.chance(2, 3)]
+        failing = [j for j in S if rng.chance(1, 5)]
+        count = rng.choice([1, 2, 5, 127, 128, 129, 130, 256, 257, 300])
+        first = rng.choice([1, 1000])
+        kind = rng.choice(['wmput', 'wmput', 'wmdel'])
+        lines = ['case %d cluster' % idx, 'nodes %d' % n]
+        if kind == 'wmdel':
+            lines.append('wmput 0 %s %d %d aa' % (','.join(map(str, others)), first, count))
+        for j in failing: lines.append(('failnext %d' if rng.chance(1, 2) else 'unreach %d') % j)
+        tg = ','.join(map(str, S)) or '-'
+        lines.append('%s 0 %s %d %d%s' % (kind, tg, first, count, ' bb' if kind == 'wmput' else ''))
+        lines.append('read 0')
+        for j in others: lines.append('read %d' % j)
+        for j in failing: lines.append('clearfail %d' % j); lines.append('reach %d' % j)
+        lines.append('sel %s fail %s' % (tg, ','.join(map(str, failing)) or '-'))
+        lines.append('end'); cases.append(lines); idx += 1
     # random multi-step cases
     for _ in range(dict(quick=60, thorough=3000, search=600)[tier]):
         n = rng.range(2, 4)
@@ -122,6 +143,36 @@ def oracle(case, impl):
                 if int(a) >= len(S) and S: bad.append('%s: error although every replica acknowledged' % line)
             else:
                 bad.append('%s: %s' % (line, out))
+        if t[0] in ('wmput', 'wmdel') and 'ts=' in out and any(l.startswith('sel ') for l in case[i:]):
+            # the bulk write under test (the one followed by reads and the `sel` line)
+            issuer = int(t[1]); S = [] if t[2] == '-' else [int(x) for x in t[2].split(',')]
+            first, count = int(t[3]), int(t[4]); ts = int(out.split('ts=')[1].split()[0])
+            mine = 2 * ts + (1 if t[0] == 'wmput' else 0)
+            rows = {}
+            j = i + 1
+            while j < len(case) and case[j].split()[0] == 'read':
+                g = case[j].split()
+                if ' | store ' in impl[j]:
+                    st = impl[j].split(' | store ')[1].split(' | docs ')[0]
+                    rows[int(g[1])] = {} if st == '-' else {int(r.split(':')[0]): (int(r.split(':')[1]), r.split(':')[2] == 't') for r in st.split(',')}
+                j += 1
+            def missing(node):
+                if node not in rows: return []
+                out_ = []
+                for d in range(first, first + count):
+                    r = rows[node].get(d)
+                    if r is None or 2 * r[0] + (0 if r[1] else 1) < mine: out_.append(d)
+                return out_
+            if j > i + 1 and case[j - 1].split()[0] == 'read':
+                if missing(issuer): bad.append('%s: the local write is not in place on the issuer: ids %s' % (line, missing(issuer)[:5]))
+                if out.startswith('ok'):
+                    for sn in S:
+                        if missing(sn): bad.append('%s returned Ok but replica %d does not hold ids %s of the batch' % (line, sn, missing(sn)[:5]))
+                elif out.startswith('consistency'):
+                    a, b = out.split()[1].split('/')
+                    if int(b) != len(S): bad.append('%s: required=%s but %d replicas were selected' % (line, b, len(S)))
+                    holding = sum(1 for sn in S if not missing(sn))
+                    if int(a) > holding: bad.append('%s: reports %s acknowledgements but only %d replicas hold the whole batch' % (line, a, holding))
         i += 1
     return bad
 
@@ -134,7 +185,7 @@ def stats(verdicts):
     d = {'writes_ok': 0, 'writes_consistency_error': 0, 'gets': 0}
     for v in verdicts:
         for l, o in zip(v['case'], v['impl']):
-            if l.startswith(('wput', 'wdel')):
+            if l.startswith(('wput', 'wdel', 'wmput', 'wmdel')):
                 d['writes_ok' if o.startswith('ok') else 'writes_consistency_error'] += 1
                 lvl = 'replicas_%d' % (0 if l.split()[2] == '-' else len(l.split()[2].split(',')))
                 d[lvl] = d.get(lvl, 0) + 1
